@@ -523,6 +523,11 @@ func main() {
 	intern(odd...)
 	intern(quirk...)
 	intern(reqPool...)
+	// wildcards and the kind (host label / path segment) of what they stand for
+	hostWild := []string{"a.com/*", "a.*", "a.com", "a.com/{p}/*", "a.com.*"}
+	hostWildReqs := []string{"a.com.evil.org/x", "a.com.evil.org", "a.com/x", "a.com/x/y", "a.com", "a/x", "a", "a.b/x", "a.b"}
+	intern(hostWild...)
+	intern(hostWildReqs...)
 	header := "From Verif Require Import C13.Model.\nImport ListNotations.\nOpen Scope Z_scope.\n" +
 		"Definition nomatch : lookup_obs := (false, false, [], []).\n" +
 		"Definition nosel (m : list Z) : sel_obs := (m, [], [], false).\n" +
@@ -541,7 +546,7 @@ func main() {
 	o.Rule("paths: every multiset of <= 2 (thorough: 3) declarations (pattern h/<= 2 segments over {a,b,{p},*}, " +
 		"thorough also <= 3 segments for <= 2 declarations) x {GET,POST}, each in every order, against every request URL " +
 		"h/<= 3 segments over {a,b,c} x {GET,POST}; kinds: every multiset of <= 2 GET declarations over every host-label/path-segment split of " +
-		"<= 2 labels; also every pair over 7 patterns with a wildcard in the middle; random: 1..5 declarations from a pool of valid patterns (1 in 6 malformed / unusually spelled), shared parameter names, " +
+		"<= 2 labels, and over 5 host/path wildcard patterns of a two-label host against requests to that host, to a host extending it and to its first label; also every pair over 7 patterns with a wildcard in the middle; random: 1..5 declarations from a pool of valid patterns (1 in 6 malformed / unusually spelled), shared parameter names, " +
 		"several remedies per declaration, equal remedy types, disabled plugins, globals, in every order (<= 4) or 12 " +
 		"sampled orders; distinct = distinct (declarations in order, requests, observations); non-trivial = at " +
 		"least one endpoint-scoped remedy was selected for some request")
@@ -578,6 +583,7 @@ func main() {
 	if o.Thorough() {
 		multisets(o, "kinds", kindPatterns([]string{"a", "{p}", "*"}, 3, true), []string{"GET"}, 2, reqsOf(reqKindURLs, []string{"GET"}), false)
 	}
+	multisets(o, "kinds", hostWild, []string{"GET"}, 2, reqsOf(hostWildReqs, []string{"GET"}), false)
 
 	// random, bigger and malformed
 	r := o.Rng
